@@ -185,6 +185,9 @@ func parseParam(ws []string) any {
 		return nil
 	case v == "tnil":
 		return (*route.MapParam)(nil)
+	case v == "nilmap":
+		var m map[string]interface{}
+		return m
 	case strings.HasPrefix(v, "sess:"):
 		return &sessParam{m: parseKVs(v[5:])}
 	case strings.HasPrefix(v, "map:"):
@@ -224,6 +227,28 @@ func mkFunc(beh string) route.RouteFunc {
 		k := beh[4:]
 		// the shape of every route function shipped with cell2 (mmo, chat2)
 		return func(_ string, p route.IRouteParam) string { park(); return p.Get(k, "").(string) }
+	case strings.HasPrefix(beh, "keyd:"):
+		// keyd:<k>,<default instance>: param.Get(k, default).(string)
+		f := strings.SplitN(beh[5:], ",", 2)
+		if len(f) != 2 {
+			return nil
+		}
+		k, d := f[0], f[1]
+		return func(_ string, p route.IRouteParam) string { park(); return p.Get(k, d).(string) }
+	case strings.HasPrefix(beh, "nilor:"):
+		// nilor:<name>,<k>: a router that distinguishes "no parameter" from a (possibly empty) key map
+		f := strings.SplitN(beh[6:], ",", 2)
+		if len(f) != 2 {
+			return nil
+		}
+		nn, k := f[0], f[1]
+		return func(_ string, p route.IRouteParam) string {
+			if p == nil {
+				return nn
+			}
+			park()
+			return p.Get(k, "").(string)
+		}
 	case strings.HasPrefix(beh, "nest:"):
 		// nest:<k>,<typeB>,<inner kvs>: a route function that first asks the router about ANOTHER
 		// type with a DIFFERENT key map (re-entrant Route), then answers from its own parameter
@@ -450,7 +475,14 @@ type gen struct {
 	h     *hx.T
 	names []string // instance names of the current view (well-formed ones)
 	types []string
-	ruled []string // types that got a rule in the current case
+	ruled []string  // types that got a rule in the current case
+	cur   []gmember // the view installed last
+}
+
+type gmember struct {
+	id, host    string
+	port, state int
+	svcs        []string
 }
 
 func (g *gen) pick(xs []string) string { return xs[g.h.R.Intn(len(xs))] }
@@ -479,9 +511,7 @@ func (g *gen) viewOp() string {
 	if h.R.Intn(3) == 0 {
 		n = 1 + h.R.Intn(2)
 	}
-	var sb strings.Builder
-	sb.WriteString("view")
-	g.names, g.types = nil, nil
+	g.cur = nil
 	for i := 0; i < n; i++ {
 		id := nodeIds[i]
 		if h.R.Intn(12) == 0 {
@@ -492,17 +522,32 @@ func (g *gen) viewOp() string {
 		if h.R.Intn(3) == 0 {
 			state = h.R.Intn(6)
 		}
-		k := h.R.Intn(5)
-		fmt.Fprintf(&sb, " m=%s|%s|%d|%d|", id, g.pick(hosts), h.Pick(1, 2, 3, 0, 65535), state)
-		for j := 0; j < k; j++ {
-			s := g.svcName()
+		m := gmember{id: id, host: g.pick(hosts), port: h.Pick(1, 2, 3, 0, 65535), state: state}
+		for j := h.R.Intn(5); j > 0; j-- {
+			m.svcs = append(m.svcs, g.svcName())
+		}
+		g.cur = append(g.cur, m)
+		h.Count(fmt.Sprintf("view.member.state%d", state))
+	}
+	h.Count(fmt.Sprintf("view.nodes%d", n))
+	return g.render()
+}
+
+// render prints g.cur as a view op and refreshes the name/type pools.
+func (g *gen) render() string {
+	h := g.h
+	var sb strings.Builder
+	sb.WriteString("view")
+	g.names, g.types = nil, nil
+	for _, m := range g.cur {
+		fmt.Fprintf(&sb, " m=%s|%s|%d|%d|", m.id, m.host, m.port, m.state)
+		for _, s := range m.svcs {
 			sb.WriteString("+" + s)
 			if f := strings.Split(s, "."); len(f) == 2 && f[0] != "" && f[1] != "" {
 				g.names = append(g.names, f[1])
 				g.types = append(g.types, f[0])
 			}
 		}
-		h.Count(fmt.Sprintf("view.member.state%d", state))
 	}
 	byName := map[string]string{}
 	for i, n := range g.names {
@@ -512,8 +557,66 @@ func (g *gen) viewOp() string {
 		}
 		byName[n] = g.types[i]
 	}
-	h.Count(fmt.Sprintf("view.nodes%d", n))
 	return sb.String()
+}
+
+// rearrange derives the next view from the current one WITHOUT changing the multiset of nodes and
+// service names (a service migrates, two nodes swap services / whole lists / states, members are
+// re-ordered) and returns the view op followed by calls aimed at what moved.
+func (g *gen) rearrange() []string {
+	h := g.h
+	if len(g.cur) < 2 {
+		return []string{g.viewOp()}
+	}
+	cp := make([]gmember, len(g.cur))
+	for i, m := range g.cur {
+		cp[i] = m
+		cp[i].svcs = append([]string(nil), m.svcs...)
+	}
+	g.cur = cp
+	a := h.R.Intn(len(cp))
+	b := (a + 1 + h.R.Intn(len(cp)-1)) % len(cp)
+	var moved []string
+	switch k := h.R.Intn(6); {
+	case k == 0 && len(cp[a].svcs) > 0 && len(cp[b].svcs) > 0: // swap one service each
+		i, j := h.R.Intn(len(cp[a].svcs)), h.R.Intn(len(cp[b].svcs))
+		cp[a].svcs[i], cp[b].svcs[j] = cp[b].svcs[j], cp[a].svcs[i]
+		moved = []string{cp[a].svcs[i], cp[b].svcs[j]}
+		h.Count("view.rearrange.swap-service")
+	case k <= 2 && len(cp[a].svcs) > 0: // one service migrates
+		i := h.R.Intn(len(cp[a].svcs))
+		sv := cp[a].svcs[i]
+		cp[a].svcs = append(cp[a].svcs[:i], cp[a].svcs[i+1:]...)
+		cp[b].svcs = append(cp[b].svcs, sv)
+		moved = []string{sv}
+		h.Count("view.rearrange.move-service")
+	case k == 3: // whole lists
+		cp[a].svcs, cp[b].svcs = cp[b].svcs, cp[a].svcs
+		moved = append(append(moved, cp[a].svcs...), cp[b].svcs...)
+		h.Count("view.rearrange.swap-lists")
+	case k == 4: // states swapped together with the lists
+		cp[a].state, cp[b].state = cp[b].state, cp[a].state
+		cp[a].svcs, cp[b].svcs = cp[b].svcs, cp[a].svcs
+		moved = append(append(moved, cp[a].svcs...), cp[b].svcs...)
+		h.Count("view.rearrange.swap-states-and-lists")
+	default: // same members, other order
+		cp[a], cp[b] = cp[b], cp[a]
+		moved = append(append(moved, cp[a].svcs...), cp[b].svcs...)
+		h.Count("view.rearrange.reorder-members")
+	}
+	ops := []string{g.render()}
+	for i, sv := range moved {
+		if i >= 3 {
+			break
+		}
+		f := strings.Split(sv, ".")
+		if len(f) != 2 || f[0] == "" || f[1] == "" {
+			continue
+		}
+		ops = append(ops, "getpid name="+f[1], "req r="+f[0]+".remote.say p=str:"+f[1], "ntf r="+f[0]+".remote.say p=nil",
+			"qs front="+f[1]+" sid=1")
+	}
+	return ops
 }
 
 func (g *gen) name() string {
@@ -570,6 +673,10 @@ func (g *gen) param() string {
 		return "p=sess:" + g.kvs()
 	case 5, 6:
 		h.Count("param.map")
+		if h.R.Intn(8) == 0 {
+			h.Count("param.map.nil-or-empty")
+			return g.pick([]string{"p=nilmap", "p=map:"})
+		}
 		return "p=map:" + g.kvs()
 	case 7, 8, 9:
 		h.Count("param.str")
@@ -586,9 +693,15 @@ func (g *gen) ruleOp() string {
 	h := g.h
 	var beh string
 	switch h.R.Intn(11) {
-	case 9, 10:
+	case 9:
 		k := g.pick(keys)
 		beh = "nest:" + k + "," + g.typ() + "," + k + "~s" + g.name()
+	case 10:
+		if h.R.Intn(2) == 0 {
+			beh = "keyd:" + g.pick(keys) + "," + g.name()
+		} else {
+			beh = "nilor:" + g.name() + "," + g.pick(keys)
+		}
 	case 0, 1, 2:
 		beh = "key:" + g.pick(keys)
 	case 3, 4:
@@ -684,9 +797,10 @@ var gridViews = []string{
 	"view m=c@n1|h1|1|0|+chat.c9 m=c@n2|h2|2|3|+chat.c2 m=c@n3||3|1|+chat.c1+gate.g1 m=n4|h4|4|5|+chat.c1",
 }
 var gridRules = []string{"none", "const:c1", "const:c9", "const:", "key:chatid", "empty", "panic",
-	"nest:chatid,gate,chatid~sc2", "nest:chatid,gate,chatid~sc1", "nest:chatid,chat,k~sc1", "nest:chatid,nosuch,"}
+	"nest:chatid,gate,chatid~sc2", "nest:chatid,gate,chatid~sc1", "nest:chatid,chat,k~sc1", "nest:chatid,nosuch,",
+	"keyd:chatid,c1", "keyd:chatid,c9", "keyd:chatid,", "nilor:c1,chatid", "nilor:c2,chatid", "nilor:,chatid"}
 var gridParams = []string{"nil", "tnil", "sess:", "sess:chatid~sc1", "sess:chatid~sc2", "sess:chatid~sc9", "sess:chatid~i1",
-	"sess:k~sc1", "map:chatid~sc1", "map:", "map:chatid~sc1;chatid~sc2", "str:c1", "str:", "str:c9", "str:x", "str:no_service",
+	"sess:k~sc1", "map:chatid~sc1", "map:", "map:chatid~sc1;chatid~sc2", "nilmap", "map:k~sc1;scene~sc2", "map:chatid~s", "map:chatid~i0", "sess:chatid~s", "str:c1", "str:", "str:c9", "str:x", "str:no_service",
 	"other:int", "other:smap", "other:slice", "other:ptr"}
 var gridRoutes = []string{"chat.remote.say", "gate.handler.enter", "nosuch.r.m", ".r.m", "bad", "a.b.c.d", "", "..", "chat.remote"}
 var gridFronts = []string{"c1", "g1", "x", "c9", "", "no_service", "chat.c1"}
@@ -780,7 +894,13 @@ func TestRun(t *testing.T) {
 				switch r := h.R.Intn(12); {
 				case r == 0:
 					h.Count("op.view-update")
-					run(g.viewOp())
+					if h.R.Intn(2) == 0 {
+						for _, op := range g.rearrange() {
+							run(op)
+						}
+					} else {
+						run(g.viewOp())
+					}
 				case r <= 2:
 					run(g.ruleOp())
 				default:
